@@ -1,5 +1,6 @@
 import Qats.Lemmas.W2GMain
 import Qats.Lemmas.StatsMain
+import Qats.Lemmas.StatsGen
 import Qats.Lemmas.MomentsMain
 /-!
 # C17 — the extreme-value chain from peaks to quantiles is coherent
@@ -159,5 +160,17 @@ example :
     Moments.tz ([0, 1, 2, 3, 4, 5, 6, 7] : List Rat) (([-1, 1, 1, -1, 1, -1, -1, 1] : List Rat).map fun v => -v) = some 2 := by
   decide +kernel
 
+
+/-- `summary_chain` with the number of peaks in the statistics duration written through the source's own expression:
+`Qats.Gen.stats_n_ratio` is the argument of `round` in `TimeSeries.stats`, regenerated from `qats/ts.py` on every run (the duration of
+the *processed* series and the number of extracted peaks are its parameters). -/
+theorem summary_chain_source (rnd : ℝ → Int) (sd dur : ℝ) (qs x : List ℝ) (isMin : Bool) (s : Summary ℝ)
+    (h : summary rnd sd dur qs isMin x = some s) :
+    let n : ℝ := ((rnd (stats_n_ratio dur (s.sample.length : ℝ) sd) : Int) : ℝ)
+    1 < n → 0 < s.wscale → 0 < s.wshape →
+      s.gloc = wb_invcdf s.wloc (1 - 1 / n) s.wscale s.wshape ∧
+      s.gscale = 1 / (n * wb_pdf s.wloc s.wscale s.wshape s.gloc) ∧
+      s.pvalues = qs.map fun p => (if isMin then -1 else 1) * gu_invcdf s.gloc p s.gscale :=
+  summary_chain_source' rnd sd dur qs x isMin s h
 
 end Qats.Props.C17
